@@ -143,6 +143,21 @@ Theorem replace_bb_thunk_far_refuted :
 Proof. exact ThunkBytesProofs.replace_bb_thunk_far_refuted. Qed.
 Print Assumptions replace_bb_thunk_far_refuted.
 
+(* A fresh bb thunk (_MIR_get_bb_thunk) hands the bb version to the handler in r10 and jumps to the
+   handler -- again only within +-2 GiB of the thunk: the displacement is cast to int32 unchecked. *)
+Theorem bb_thunk_decodes_partial : forall thunk bbv handler,
+  0 <= bbv < 2 ^ 64 -> 0 <= handler < 2 ^ 64 ->
+  - 2 ^ 31 <= handler - (thunk + 15) <= 2 ^ 31 - 1 ->
+  bb_thunk_exec thunk (get_bb_thunk_bytes thunk bbv handler) = Some (bbv, handler).
+Proof. exact ThunkBytesProofs.bb_thunk_decodes_partial. Qed.
+Print Assumptions bb_thunk_decodes_partial.
+
+Theorem bb_thunk_far_refuted :
+  exists thunk bbv handler, 0 <= bbv < 2 ^ 64 /\ 0 <= handler < 2 ^ 64 /\
+    bb_thunk_exec thunk (get_bb_thunk_bytes thunk bbv handler) <> Some (bbv, handler).
+Proof. exact ThunkBytesProofs.bb_thunk_far_refuted. Qed.
+Print Assumptions bb_thunk_far_refuted.
+
 (* ---- non-vacuity: concrete histories the hypotheses are met by ---- *)
 Import ListNotations.
 Definition ex_callees (f : nat) : list nat := match f with 0%nat => [1%nat] | _ => [] end.
